@@ -2388,6 +2388,27 @@ theorem C11.Post.bind_forIn {γ β : Type} {Q : β → Prop} {l : List γ} {f : 
   rw [bind_run]
   exact hg _ (key l none s rfl) _
 
+/-- the same for a loop that starts from an error value already accumulated (the loops over the children) -/
+theorem C11.Post.bind_forIn_init {γ β : Type} {Q : β → Prop} {l : List γ} {f : γ → Option Exc → M (ForInStep (Option Exc))}
+    {g : Option Exc → M β} {init : Option Exc} (hi : noRef init = true)
+    (hf : ∀ a b, noRef b = true → Post QStep (f a b)) (hg : ∀ err, noRef err = true → Post Q (g err)) :
+    Post Q (forIn l init f >>= g) := by
+  have key : ∀ (l : List γ) (init : Option Exc) (s : State), noRef init = true →
+      noRef ((forIn l init f : M (Option Exc)) s).1 = true := by
+    intro l
+    induction l with
+    | nil => intro init s h; exact h
+    | cons x xs ih =>
+      intro init s h
+      simp only [List.forIn_cons]
+      rw [bind_run]
+      obtain ⟨b, hb, hp⟩ := hf x init h s
+      rw [hb]
+      exact ih b _ hp
+  intro s
+  rw [bind_run]
+  exact hg _ (key l init s hi) _
+
 /-- validation-class errors leave the state alone -/
 def C11.ErrRef {α : Type} (m : M (R α)) (s : State) : Prop :=
   ∀ e, (m s).1 = .error e → e.isRefusal = true → (m s).2 = s
@@ -2410,7 +2431,7 @@ theorem C11.execSignal_errRef (props : JVal) (s : State) : ErrRef (execSignal pr
   · refine errRef_bind_read h ?_
     apply errRef_of_post
     aesop (add safe 0 apply [Post.yield_key, Post.yield_nsp, Post.yield_unm, Post.res_ok],
-               safe 1 apply [Post.yield, Post.res_err, Post.bind_forIn],
+               safe 1 apply [Post.yield, Post.res_err, Post.bind_forIn, Post.bind_forIn_init],
                safe 2 apply [Post.bind_any, Post.ite_any])
       (config := { terminal := true, useDefaultSimpSet := false, useSimpAll := false, maxRuleApplications := 3000 })
 
